@@ -87,3 +87,15 @@ Definition clean (s : sstate) : Prop := s_mode s = MCode /\ s_minus s = false.
 Definition same_depth (a b : sstate) : Prop :=
   s_paren a = s_paren b /\ s_brace a = s_brace b /\ s_angle a = s_angle b /\ s_err a = s_err b.
 Definition closed (frag : str) : Prop := forall s, clean s -> clean (scan s frag) /\ same_depth s (scan s frag).
+
+(* a legal identifier token of the language: [_a-zA-Z][_a-zA-Z0-9]* that is not a keyword, or such a word between back-quotes *)
+Definition legal_ident (keywords : list str) (s : str) : bool :=
+  (is_ident s && negb (mem_str s keywords))
+  || match s with
+     | q :: r => Ascii.eqb q "`"%char &&
+                 match rev r with
+                 | q' :: m => Ascii.eqb q' "`"%char && is_ident (rev m)
+                 | [] => false
+                 end
+     | [] => false
+     end.
